@@ -3,6 +3,7 @@
 From Coq Require Import ZArith NArith List Bool Lia ZifyBool ZifyN.
 From RecordUpdate Require Import RecordSet.
 From PSO Require Import Raft.Types Raft.Node Raft.Net Raft.Obs Raft.ProofsSnapshotBase.
+From PSO Require Raft.ProofsCommitBase Raft.ProofsCommit.
 Import ListNotations.
 Import RecordSetNotations.
 Open Scope N_scope.
@@ -194,39 +195,75 @@ Proof.
   - split; auto.
 Qed.
 
+Lemma exc_do_change_cluster : forall a x r s, exc (fst (do_change_cluster a x r s)) = exc s.
+Proof.
+  intros. unfold do_change_cluster.
+  repeat (match goal with |- context [if ?b then _ else _] => destruct b end; cbn); reflexivity.
+Qed.
+
+Lemma exc_apply_membership : forall r es s, exc (apply_membership r es s) = exc s.
+Proof.
+  intros r es. unfold apply_membership. induction es as [|en es IH]; intros s; cbn [fold_left]; auto.
+  rewrite IH. destruct (membership_of (ecmd en)) as [[a x]|]; auto. apply exc_do_change_cluster.
+Qed.
+
+(* loading a received snapshot that is ahead of the node's position.  The log keeps its entries from
+   the snapshot's position on when it holds the snapshot's two entries (ProofsCommit.snap_kept),
+   otherwise it becomes [e0; e1] *)
 Lemma load_restores : forall e s sn,
   stored (sr (nd s)) = Some (Good sn) -> s_ver sn <= self_ver (nd s) ->
   applied (nd s) < eidx (s_e1 sn) ->
   let s' := load_dump e true s in
+  let kept := ProofsCommit.snap_kept sn (log (nd s)) in
   load_dump_ok s = true /\
   hist (nd s') = s_hist sn /\ enabled_ver (nd s') = s_ver sn /\ applied (nd s') = eidx (s_e1 sn) /\
-  log (nd s') = [s_e0 sn; s_e1 sn] /\
-  replay_idx (nd s') = N.min (replay_idx (nd s)) (eidx (s_e1 sn)) /\
+  log (nd s') = (if kept then delete_to (log (nd s)) (eidx (s_e0 sn)) else [s_e0 sn; s_e1 sn]) /\
+  replay_idx (nd s') = (if kept then replay_idx (nd s) else N.min (replay_idx (nd s)) (eidx (s_e1 sn))) /\
   commit (nd s') = commit (nd s) /\ sr (nd s') = sr (nd s) /\ exc s' = exc s /\
   self_ver (nd s') = self_ver (nd s) /\
-  others (nd s') = (if dyn (cf e)
-                    then filter (fun x => negb (self_is x (nd s))) (s_cluster sn) else others (nd s)).
+  (dyn (cf e) = false -> others (nd s') = others (nd s)) /\
+  (dyn (cf e) = true -> kept = false ->
+   others (nd s') = filter (fun x => negb (self_is x (nd s))) (s_cluster sn)).
 Proof.
-  intros e s sn Hst Hv Hah s'. subst s'. unfold load_dump, load_dump_ok. rewrite Hst.
-  destruct (eidx (s_e1 sn) <=? applied (nd s)) eqn:Eb; [lia|]. cbn [andb negb].
+  intros e s sn Hst Hv Hah s' kept. subst s'.
+  assert (Hb : true && (eidx (s_e1 sn) <=? applied (nd s)) = false) by (cbn; lia).
+  destruct (ProofsCommit.load_dump_loaded e true s sn Hst Hb Hv) as [Hlog Happ]. fold kept in Hlog.
+  split; [unfold load_dump_ok; rewrite Hst; lia|].
+  revert Hlog Happ. unfold load_dump. rewrite Hst, Hb.
   destruct (self_ver (nd s) <? s_ver sn) eqn:E; [lia|].
-  split; [lia|]. cbn [orb].
-  match goal with |- context [if dyn (cf e) then update_cluster _ ?s0 else _] => set (S0 := s0) end.
-  match goal with |- context [if dyn (cf e) then update_cluster ?new S0 else _] => set (NEW := new) end.
+  cbv zeta. cbn [nd upd log set]. fold (ProofsCommit.snap_kept sn (log (nd s))). fold kept.
+  match goal with |- context [update_cluster ?l ?s4] => set (S0 := s4) end.
+  match goal with |- context [update_cluster ?l S0] => set (NEW := l) end.
   assert (HS0 : hist (nd S0) = s_hist sn /\ enabled_ver (nd S0) = s_ver sn /\
-                applied (nd S0) = eidx (s_e1 sn) /\ log (nd S0) = [s_e0 sn; s_e1 sn] /\
-                replay_idx (nd S0) = N.min (replay_idx (nd s)) (eidx (s_e1 sn)) /\
+                replay_idx (nd S0) = (if kept then replay_idx (nd s) else N.min (replay_idx (nd s)) (eidx (s_e1 sn))) /\
                 commit (nd S0) = commit (nd s) /\ sr (nd S0) = sr (nd s) /\ exc S0 = exc s /\
                 self_ver (nd S0) = self_ver (nd s) /\
                 others (nd S0) = others (nd s) /\ self (nd S0) = self (nd s)).
-  { subst S0. unfold upd. cbn. repeat split; auto. }
-  destruct HS0 as (A1 & A2 & A3 & A4 & A5 & A6 & A7 & A8 & A8' & A9 & A10).
-  destruct (dyn (cf e)).
+  { subst S0. destruct kept eqn:Ek.
+    - destruct (ProofsCommit.snap_kept_split sn _ Ek) as (pre & a & b & r & _ & Hd & Ha & Hb2).
+      cbn [nd upd log set]. rewrite Hd, Ha, Hb2. unfold upd. cbn. repeat split; auto.
+    - cbn [nd upd log set]. rewrite (ProofsCommit.snap_not_kept_head sn _ Ek). unfold upd. cbn. repeat split; auto. }
+  destruct HS0 as (A1 & A2 & A5 & A6 & A7 & A8 & A8' & A9 & A10).
+  assert (HNEW : NEW = filter (fun x => negb (self_is x (nd s))) (s_cluster sn)).
+  { subst NEW. apply filter_ext. intros x. cbv beta.
+    match goal with |- negb (self_is x ?nx) = _ => assert (Ex : self nx = self (nd s)) end.
+    { repeat (match goal with |- context [if ?b then _ else _] => destruct b end; cbn [nd upd self set]);
+        reflexivity. }
+    unfold self_is. now rewrite Ex. }
+  clearbody S0 NEW.
+  destruct (dyn (cf e)) eqn:Ed.
   - destruct (update_cluster_frame NEW S0) as (Hf & Ho & Hx & _).
     unfold same_app in Hf. destruct Hf as (B1 & B2 & B3 & B4 & B5 & B6 & B7 & B8 & B9 & B10).
-    repeat split; try congruence.
-    rewrite Ho. subst NEW. apply filter_ext. intros x. unfold self_is. rewrite A10. reflexivity.
-  - repeat split; auto.
+    cbn [andb]. destruct kept eqn:Ek.
+    + intros Hlog Happ.
+      rewrite (ProofsCommitBase.fr_apply_membership hist), (ProofsCommitBase.fr_apply_membership enabled_ver),
+        (ProofsCommitBase.fr_apply_membership replay_idx), (ProofsCommitBase.fr_apply_membership commit),
+        (ProofsCommitBase.fr_apply_membership sr), (ProofsCommitBase.fr_apply_membership self_ver)
+        by (intros; reflexivity).
+      rewrite exc_apply_membership.
+      repeat split; try congruence; try discriminate.
+    + intros Hlog Happ. repeat split; try congruence; try discriminate.
+  - intros Hlog Happ. repeat split; try congruence; try discriminate.
 Qed.
 
 (* frame facts needed for the append_entries handler *)
@@ -280,8 +317,9 @@ Lemma on_append_entries_snap_unfold : forall e from t c p s,
   if t <? term (nd s) then s
   else let (s2, done) := set_transmission p (ae_header e from t c s) in
        if done && load_dump_ok s2 then
-         let s3 := send_next_idx from None false true (load_dump e true s2) in
-         ae_commit c (Some (last_idx (log (nd s3)))) s3
+         let s3 := load_dump e true s2 in
+         let v := applied (nd s3) in
+         ae_commit c (Some v) (send_next_idx from (Some (v + 1)) false true s3)
        else if done then ae_commit c None (load_dump e true s2)
        else ae_commit c None s2.
 Proof. reflexivity. Qed.
@@ -458,13 +496,12 @@ Lemma load_dump_tconn_term : forall e s,
   forall x, smem x (tconn (nd s)) = true -> dyn (cf e) = false ->
             smem x (tconn (nd (load_dump e true s))) = true.
 Proof.
-  intros e s. unfold load_dump.
+  intros e s. split; [apply (ProofsCommitBase.fr_load_dump term); intros; reflexivity|].
+  intros x Hx Hd. unfold load_dump.
   destruct (stored (sr (nd s))) as [[sn|]|]; auto.
-  destruct (true && _); [split; [reflexivity|intros x Hx Hd; exact Hx]|].
-  destruct (self_ver (nd s) <? s_ver sn); auto. cbn [orb].
-  split.
-  - destruct (dyn (cf e)); [rewrite update_cluster_term|]; reflexivity.
-  - intros x Hx Hd. rewrite Hd. exact Hx.
+  destruct (true && _); [exact Hx|].
+  destruct (self_ver (nd s) <? s_ver sn); auto. cbv zeta. rewrite Hd.
+  repeat (match goal with |- context [if ?b then _ else _] => destruct b end; cbn [nd upd tconn set]); exact Hx.
 Qed.
 
 Lemma load_dump_not_ok_sr : forall e s,
@@ -485,7 +522,8 @@ Lemma aesnap_install : forall e from t c p s sn,
   stored (sr (nd s')) = Some (Good sn) -> s_ver sn <= self_ver (nd s) ->
   applied (nd s) < eidx (s_e1 sn) ->
   hist (nd s') = s_hist sn /\ enabled_ver (nd s') = s_ver sn /\ applied (nd s') = eidx (s_e1 sn) /\
-  log (nd s') = [s_e0 sn; s_e1 sn] /\
+  log (nd s') = (if ProofsCommit.snap_kept sn (log (nd s))
+                 then delete_to (log (nd s)) (eidx (s_e0 sn)) else [s_e0 sn; s_e1 sn]) /\
   commit (nd s') = (if commit (nd s) <? c then N.max (commit (nd s)) (N.min c (eidx (s_e1 sn))) else commit (nd s)) /\
   (smem from (tconn (nd s)) = true -> dyn (cf e) = false ->
    In (Send from (NextIdx t (eidx (s_e1 sn) + 1) false true)) (outs s')).
@@ -511,7 +549,7 @@ Proof.
     assert (Hah2 : applied (nd s2) < eidx (s_e1 sn2)) by lia.
     destruct (load_restores e s2 sn2 Est Hv Hah2) as (_ & L1 & L2 & L3 & L4 & L5 & L6 & L7 & L8 & L9 & _).
     destruct (load_dump_tconn_term e s2) as (T1 & T2).
-    set (s3 := load_dump e true s2) in *.
+    set (s3 := load_dump e true s2) in *. cbv zeta.
     unfold send_next_idx.
     match goal with |- context [send from ?m s3] => set (M := m) end.
     destruct (send_frame from M s3) as (S1 & S2 & S3).
@@ -521,10 +559,9 @@ Proof.
     assert (Hsn : sn2 = sn).
     { destruct (commit (nd s3) <? c); cbn in Hst; rewrite ?S1, L7, Est in Hst; congruence. }
     subst sn2.
-    assert (Hli : last_idx (log (nd s3)) = eidx (s_e1 sn)) by (rewrite L4; reflexivity).
     assert (HM : M = NextIdx t (eidx (s_e1 sn) + 1) false true).
-    { subst M. rewrite Hli, T1, F9, E. f_equal. lia. }
-    rewrite Hli, L6, F5, A5.
+    { subst M. rewrite L3, T1, F9, E. f_equal. lia. }
+    rewrite L3, L6, F5, A5. rewrite F4, A4 in L4.
     assert (Hsend : smem from (tconn (nd s)) = true -> dyn (cf e) = false ->
                     In (Send from (NextIdx t (eidx (s_e1 sn) + 1) false true)) (outs (send from M s3))).
     { intros Hc Hdyn. rewrite So, T2, HM; auto; [|congruence]. apply in_or_app. right. left. reflexivity. }
